@@ -26,7 +26,7 @@ meta = {
         "demo_run": "copy the demo file into %s of the repository and run: go test -vet=off -count=1 -run '%s' ." % (pkg, run),
         "builds": True, "suite_passes_with_change": True, "demo_fails_with_change": True, "demo_passes_without_change": True,
     },
-    "checks_run": "tools/eval_mutant.sh <patch> quick <property> (git -C /repo apply; ./check; git -C /repo checkout -- .)",
+    "checks_run": "tools/eval_mutant.sh <patch> quick <property> (patch applied to a scratch worktree of /repo HEAD, checks run against it through VERIF_REPO)",
     "caught_by": [c for c in caught.split(",") if c],
     "missed_by": [c for c in missed.split(",") if c],
     "note": note,
